@@ -203,62 +203,16 @@ def cfg_public(cfg):
     return d
 
 
-# ----------------------------------------------------------------------------- known findings (genuine defects of the pinned tree)
-def _tensor_of(inp):
-    X = inp["tensor"]
-    return [arr(s) for s in X] if isinstance(X, list) else arr(X)
-
-
+# ----------------------------------------------------------------------------- known findings
+# none: the four defects this check found (NNDSVD 0/0, PARAFAC2 line search on mode 1, PARAFAC2 signed built-in start, FISTA step 1/0)
+# have been repaired in /repo (see known_findings.d/C10.json "fixed"); their witnesses are regression inputs in corpus/C10.
 def arr(x):
     if isinstance(x, dict):
         return C.from_jsonable_array(x)
     return np.asarray(x, dtype=float)
 
 
-def clf_parafac2_linesearch_mode1(f):
-    inp = f["inputs"]
-    if inp.get("algo") != "parafac2" or not inp["opts"].get("linesearch"):
-        return False
-    nn = inp.get("nn_modes")
-    return (nn == "all" or 1 in (nn or [])) and inp["n"] >= 7 and f["extra"].get("what") == ["factor1"]
-
-
-def _observed_factors(f):
-    try:
-        return [arr(x) for x in f["observed"]["factors"]]
-    except Exception:
-        return []
-
-
-def clf_parafac2_svd_init(f):
-    """init='svd' gives A = ones, B = identity, C = signed singular vectors and nothing makes C feasible: returned as is when no
-    iteration runs; afterwards only where the HALS row update is skipped (zero Gram diagonal: an all-zero column in A or B)"""
-    inp = f["inputs"]
-    if inp.get("algo") != "parafac2" or inp.get("init") != "svd":
-        return False
-    if not set(f["extra"].get("what", [])) <= {"factor2"}:
-        return False
-    if inp["n"] == 0:
-        return True
-    fs = _observed_factors(f)
-    return any((np.abs(fs[m]).sum(axis=0) == 0).any() for m in (0, 1) if m < len(fs))
-
-
-def clf_tucker_fista_zero_gram(f):
-    """non_negative_tucker_hals(algorithm='fista'): a factor was clipped to all zeros, its Gram matrix has largest singular value 0 and
-    the step size 1/0 = inf turns the core into NaN"""
-    inp = f["inputs"]
-    if inp.get("algo") != "nn_tucker_hals" or inp["opts"].get("algorithm") != "fista":
-        return False
-    if f["extra"].get("what") != ["core"] or "nan" not in f["message"]:
-        return False
-    fs = _observed_factors(f)
-    return any(np.all(x == 0) for x in fs)
-
-
-CLASSIFIERS = {"parafac2_linesearch_mode1_declared": clf_parafac2_linesearch_mode1,
-               "parafac2_svd_init_signed_C": clf_parafac2_svd_init,
-               "tucker_hals_fista_zero_gram_infinite_step": clf_tucker_fista_zero_gram}
+CLASSIFIERS = {}
 
 
 # ----------------------------------------------------------------------------- configuration generator (part A)
@@ -370,8 +324,6 @@ def gen_configs(tier, rng):
                 nn = rng.choice(["all", [0], [2], [0, 2], [1], [0, 1, 2], [0, 1], [1, 2]])
                 ls = rng.random() < 0.6
                 n = rng.choice([0, 1, 2, 5, 7, 9, 11] if ls else [0, 1, 2, 3, 7])
-                if nn == "all" and ls and n >= 7:
-                    nn = [0, 1, 2]      # nn_modes='all' + line search raises TypeError on the pinned tree (reported; not a sign question)
                 init = ini
                 if ini == "svd" and (sum(rows) if isinstance(X, list) else X.shape[0] * X.shape[1]) < 1:
                     init = "random"
@@ -394,7 +346,7 @@ def gen_linesearch_configs(tier, rng):
         klass = rng.choice(["signed", "signed", "sparse", "nonneg", "lowrank"])
         X = gen_tensor(rng, (I, J, K), klass)
         yield dict(algo="parafac2", tensor=X, klass=klass, rank=R, init="random", n=rng.choice([7, 9, 11]), rs=rng.randrange(10 ** 6),
-                   nn_modes=rng.choice([[0], [2], [0, 2], [0, 2], [0, 1, 2]]),
+                   nn_modes=rng.choice([[0], [2], [0, 2], [1], [0, 1, 2], "all"]),
                    opts=dict(tol=1e-300, normalize=rng.random() < 0.3, linesearch=True, n_iter_parafac=rng.choice([1, 2, 5])))
 
 
@@ -577,6 +529,8 @@ def run(chk):
     stage("build_and_print_assumptions")
     C.reset_backends()
     stats = {"not_ok": [], "checked": 0, "undeclared_negative": 0}
+    for cfg in load_corpus():
+        evaluate_cfg(chk, cfg, stats)
     for cfg in gen_configs(chk.tier, rng):
         evaluate_cfg(chk, cfg, stats)
     for cfg in gen_linesearch_configs(chk.tier, rng):
@@ -587,11 +541,49 @@ def run(chk):
     run_correspondence(chk, rng)
     stage("correspondence")
     chk.cov["stages"] = stages
+    chk.cov["exhaustive"] = False
+    chk.cov["rule"] = ("part A: corpus (witnesses of the four repaired defects) + 8 data classes {signed, non-negative, all-negative, sparse, sparse non-negative, integer, "
+                       "signed generalized permutation, low-rank} x orders 2-4 (dims 2-4, thorough 2-5, x8 repetitions) x {svd, random, entrywise non-negative user init with zero columns / "
+                       "non-unit weights} x caps {0,1,2,3,6} for non_negative_parafac, non_negative_parafac_hals (nn_modes all/None/subsets, sparsity, exact, fixed modes), non_negative_tucker, "
+                       "non_negative_tucker_hals (fista / active_set, sparsity, fixed modes), constrained_parafac(non_negative = True / mode dict, inner caps 1/3/10), parafac2 (tensor or ragged "
+                       "slices, nn_modes incl. 'all', line search on/off, caps 0-11) + dedicated line-search runs + direct solver calls; predicate: every entry of a declared mode, weights, core >= 0; "
+                       "a case is non-trivial always (no all-size-1 / all-zero tensors are generated); distinct key = (entry point, shape, class, init, cap, nn_modes, options). "
+                       "part B: dyadic few-bit inputs, model evaluated inside Coq over Q, tolerance atol + 1e-9 (|a|+|b|)")
+    chk.assumptions = ["exact-arithmetic semantics: floating-point rounding is not modelled (bounded empirically by the toleranced comparison); IEEE inf / NaN are outside the model",
+                       "every data- or LAPACK-dependent quantity of the iteration skeletons is an arbitrary function argument (the theorems quantify over all of them); only the formula layer "
+                       "and the complete multiplicative-update runs are executed against the implementation",
+                       "tl.norm is the Euclidean norm: a rational square root with ~157 correct bits in the executed model, sqrt over R in the proofs",
+                       "runs in which the implementation raises (singular solves on degenerate data) return nothing and are not judged"]
+    chk.trusted += ["numpy einsum recomputation of the non_negative_tucker numerators (conditioning test and the formula-level OMuTk cases)",
+                    "the momentum coefficients of fista are recomputed in Python (data independent) and passed to the model as exact rationals"]
     chk.cov["decomposition_runs_checked"] = stats["checked"]
     chk.cov["runs_with_negative_entries_on_undeclared_modes"] = stats["undeclared_negative"]
     chk.cov["runs_raising"] = len(stats["not_ok"])
     chk.notes += [f"raised: {x}" for x in stats["not_ok"][:12]]
     return chk.finish(CLASSIFIERS)
+
+
+def decode_cfg(inp):
+    cfg = dict(inp)
+    X = inp["tensor"]
+    cfg["tensor"] = [arr(s) for s in X] if isinstance(X, list) else arr(X)
+    if not isinstance(inp["init"], str):
+        cfg["init"] = {k: ([arr(x) for x in v] if isinstance(v, list) else arr(v)) for k, v in inp["init"].items()}
+    if cfg["opts"].get("mask") is not None:
+        cfg["opts"] = dict(cfg["opts"]); cfg["opts"]["mask"] = arr(cfg["opts"]["mask"])
+    return cfg
+
+
+def load_corpus():
+    d = os.path.join(C.VERIF, "corpus", "C10")
+    out = []
+    if os.path.isdir(d):
+        for fn in sorted(os.listdir(d)):
+            if fn.endswith(".json"):
+                cfg = decode_cfg(json.load(open(os.path.join(d, fn))))
+                cfg["klass"] = "corpus:" + fn[:-5]
+                out.append(cfg)
+    return out
 
 
 def replay(payload):
@@ -610,7 +602,7 @@ def replay(payload):
         if st != "ok":
             print("replay: raised", r)
             return 1
-        bad = [m for m in (0, 2) if m in nn and not (np.asarray(r[0][m]) >= 0).all()]
+        bad = [m for m in ([0, 1, 2] if nn == "all" else nn) if not (np.asarray(r[0][m]) >= 0).all()]
         print("replay: line_step ->", bad or "holds")
         return 1 if bad else 0
     if "solver" in inp:
@@ -623,13 +615,7 @@ def replay(payload):
         fails = solver_failures(cfg, out)
         print("replay:", cfg["solver"], "->", fails or "holds")
         return 1 if fails else 0
-    cfg = dict(inp)
-    X = inp["tensor"]
-    cfg["tensor"] = [arr(s) for s in X] if isinstance(X, list) else arr(X)
-    if not isinstance(inp["init"], str):
-        cfg["init"] = {k: ([arr(x) for x in v] if isinstance(v, list) else arr(v)) for k, v in inp["init"].items()}
-    if cfg["opts"].get("mask") is not None:
-        cfg["opts"] = dict(cfg["opts"]); cfg["opts"]["mask"] = arr(cfg["opts"]["mask"])
+    cfg = decode_cfg(inp)
     C.reset_backends()
     st, out = C.call_impl(quiet_run, cfg, timeout=120)
     if st != "ok":
@@ -702,7 +688,7 @@ def corr_mu_cp(rng, tier):
         w = np.ones(rank) if rng.random() < 0.6 else np.array([rng.choice([0.5, 2.0, 1.0, 0.0 if rank > 1 else 1.5]) for _ in range(rank)])
         nm = rng.random() < 0.5
         fixed = [rng.randrange(order - 1)] if rng.random() < 0.3 else []
-        n = rng.choice([0, 1, 1, 2] if (order == 2 and (rank == 1 or not nm)) else [0, 1, 1])    # exact rationals grow fast with the depth
+        n = rng.choice([0, 1, 1, 2] if (order == 2 and (rank == 1 or (not nm and tier != "quick"))) else [0, 1, 1])    # exact rationals grow fast with the depth
         modes = [m for m in range(order) if m not in fixed]
         st, r = C.call_impl(lambda: non_negative_parafac(X.copy(), rank, n_iter_max=n, init=(w.copy(), [f.copy() for f in Fs]), tol=0,
                                                          normalize_factors=nm, fixed_modes=list(fixed)), timeout=60)
@@ -905,6 +891,66 @@ def corr_mu_tucker(rng, tier):
     return out, skipped
 
 
+def tucker_sweep_well_conditioned(X, core, Fs, new_core, new_Fs, eps):
+    """no numerator of this sweep (factor updates in Gauss-Seidel order, then the core) lies within rounding distance of the clipping threshold"""
+    state = [f.copy() for f in Fs]
+    for mode in range(X.ndim):
+        num, numabs, den = tucker_mu_numden(X, core, state, mode)
+        if ((np.abs(num - eps) <= 1e-6 * numabs + 1e-13) & (numabs > 0)).any():
+            return False
+        state[mode] = new_Fs[mode]
+    num, numabs, den = tucker_mu_core_numden(X, core, state)
+    return not ((np.abs(num - eps) <= 1e-6 * numabs + 1e-13) & (numabs > 0)).any()
+
+
+def corr_tucker_full(rng, tier):
+    """complete runs of non_negative_tucker from a user initialisation (0-2 sweeps, normalisation on/off) against the model's real oracles"""
+    from tensorly.decomposition import non_negative_tucker
+    out, skipped = [], 0
+    eps = 10e-12
+    nrun = 10 if tier == "quick" else 60
+    for k in range(nrun):
+        order = rng.choice([2, 2, 2, 3])
+        shape = tuple(rng.randint(2, 3) for _ in range(order)) if order == 2 else (2, 2, 2)
+        ranks = [rng.randint(1, 2) for _ in shape]
+        if order == 3:
+            ranks[rng.randrange(3)] = 1          # exact rationals: keep the core small
+        klass = rng.choice(["signed", "signed", "nonneg", "negative", "sparse"])
+        lo, hi, zp = {"signed": (-3, 3, 0), "nonneg": (0, 3, 0), "negative": (-3, -0.25, 0), "sparse": (-3, 3, 0.6)}[klass]
+        X = dy_mat(rng, 1, int(np.prod(shape)), lo, hi, zero_prob=zp).reshape(shape)
+        Fs = [dy_mat(rng, s, r, 0.25, 2, zero_prob=0.15) for s, r in zip(shape, ranks)]
+        core = dy_mat(rng, 1, int(np.prod(ranks)), 0.25, 2, zero_prob=0.1).reshape(ranks)
+        nm = rng.random() < 0.4 and order == 2
+        n = rng.choice([0, 1, 1, 1, 2]) if (order == 2 and not nm and int(np.prod(ranks)) <= (1 if tier == "quick" else 2)) else rng.choice([0, 1, 1])
+        run = lambda cap: C.call_impl(lambda: non_negative_tucker(X.copy(), list(ranks), n_iter_max=cap, init=(core.copy(), [f.copy() for f in Fs]),
+                                                                  tol=0, normalize_factors=nm), timeout=60)
+        ok, c0, f0, res = True, core, Fs, None
+        for cap in range(1, n + 1):           # states after every sweep (deterministic): conditioning of each sweep
+            st, r = run(cap)
+            if st != "ok" or not finite_all(r[0], *r[1]):
+                ok = False; break
+            c1, f1 = np.asarray(r[0]), [np.asarray(f) for f in r[1]]
+            if not nm:
+                ok = ok and tucker_sweep_well_conditioned(X, c0, f0, c1, f1, eps)
+            c0, f0, res = c1, f1, r
+        if n == 0:
+            st, res = run(0)
+            ok = st == "ok"
+        if nm and n >= 1:
+            # the returned state is normalised: check the conditioning of the sweep on an unnormalised run of the same sweep
+            st, r = C.call_impl(lambda: non_negative_tucker(X.copy(), list(ranks), n_iter_max=1, init=(core.copy(), [f.copy() for f in Fs]),
+                                                            tol=0, normalize_factors=False), timeout=60)
+            ok = ok and st == "ok" and tucker_sweep_well_conditioned(X, core, Fs, np.asarray(r[0]), [np.asarray(f) for f in r[1]], eps)
+        if not ok or res is None:
+            skipped += 1
+            continue
+        op = (f"(OTkMu {C.q(eps)} {C.qtensor(shape, [float(x) for x in X.reshape(-1)])} {C.qtensor(ranks, [float(x) for x in core.reshape(-1)])} "
+              f"{qmats_lit(Fs)} {C.boolc(nm)} {n}%nat)")
+        meta = {"corr": "non_negative_tucker", "tensor": X, "core": core, "factors": Fs, "normalize": nm, "n": n}
+        out.append((op, Fraction(1, 10 ** 18), np.asarray(res[0]).reshape(-1), [np.asarray(f) for f in res[1]], meta))
+    return out, skipped
+
+
 def corr_line(rng, tier, chk):
     from tensorly.decomposition._parafac2 import _BroThesisLineSearch
     out = []
@@ -915,7 +961,7 @@ def corr_line(rng, tier, chk):
         slices = [np.array([[rng.gauss(0, 1) for _ in range(K)] for _ in range(j)]) for j in rows]
         last = [dy_mat(rng, I, R, 0, 2), dy_mat(rng, R, R, 0, 2), dy_mat(rng, K, R, 0, 2)]
         cur = [dy_mat(rng, I, R, 0, 2), dy_mat(rng, R, R, 0, 2), dy_mat(rng, K, R, 0, 2)]
-        nn = rng.choice([[0], [2], [0, 2], [1], [0, 1, 2], [1, 2], [0, 1], None])
+        nn = rng.choice([[0], [2], [0, 2], [1], [0, 1, 2], [1, 2], [0, 1], None, "all"])
         it = rng.choice([6, 8, 10, 16, 30])
         acc = rng.choice([2.0, 2.0, 3.0])
         ls = _BroThesisLineSearch(1.0, "truncated_svd", nn_modes=nn, acc_pow=acc)
@@ -924,13 +970,14 @@ def corr_line(rng, tier, chk):
         st, r = C.call_impl(lambda: ls.line_step(it, slices, [f.copy() for f in last], np.ones(R), [f.copy() for f in cur], projs, np.inf), timeout=60)
         if st != "ok" or r[0] is None or not finite_all(*r[0]) or not np.isfinite(r[2]):
             continue
-        for m_ in (0, 2):       # the line-search iterate itself (observation point of the clipping); mode 1: known finding
-            if nn and m_ in nn and not (np.asarray(r[0][m_]) >= 0).all():
+        decl = [0, 1, 2] if nn == "all" else (nn or [])
+        for m_ in decl:         # the line-search iterate itself (observation point of the clipping)
+            if not (np.asarray(r[0][m_]) >= 0).all():
                 chk.finding("tensorly.decomposition._parafac2._BroThesisLineSearch.line_step",
                             {"nn_modes": nn, "iteration": it, "acc_pow": acc, "last": last, "cur": cur, "slices": slices, "projections": projs},
                             f"accepted line-search iterate of declared mode {m_} has negative entries: {float(np.min(r[0][m_]))!r}",
                             "line_search_iterate_nonnegative", observed=list(r[0]))
-        op = f"(OLine {C.nat_list(nn or [])} {C.q(jump)} {qmats_lit(last)} {qmats_lit(cur)})"
+        op = f"(OLine {C.nat_list(decl)} {C.q(jump)} {qmats_lit(last)} {qmats_lit(cur)})"
         meta = {"corr": "_BroThesisLineSearch.line_step", "nn_modes": nn, "iteration": it, "acc_pow": acc, "last": last, "cur": cur}
         out.append((op, Fraction(1, 10 ** 9), [], list(r[0]), meta))
     return out
@@ -944,6 +991,9 @@ def run_correspondence(chk, rng):
     groups += corr_normalize(rng, chk.tier)
     tk, skipped_py = corr_mu_tucker(rng, chk.tier)
     groups += tk
+    tkf, skipped_py2 = corr_tucker_full(rng, chk.tier)
+    groups += tkf
+    skipped_py += skipped_py2
     groups += corr_line(rng, chk.tier, chk)
     # interleave the groups so that every shard gets a mix of cheap and expensive cases
     nsh = max(1, -(-len(groups) // (12 if chk.tier == "quick" else 25)))
